@@ -441,3 +441,683 @@ def _packet_exact(peer, ptype, payload, **kw):
             hdr += b"\x00"
         hdr += F.enc_varint(pn_len + len(payload) + 16, 2)
     return rc.protect(keys, hdr, pn, pn_len, payload)
+
+
+# ----------------------------------------------------------------------------- family 1: raw
+
+
+def _rb(rng, n):
+    return rng.getrandbits(8 * n).to_bytes(n, "big") if n else b""
+
+
+def _victim_cid(st):
+    cids = st.info.get("victim_cids") or [b""]
+    return cids[0]
+
+
+def long_header(first, version, dcid, scid, rest, dcil=None, scil=None):
+    return (bytes([first]) + version.to_bytes(4, "big") + bytes([len(dcid) if dcil is None else dcil]) + dcid
+            + bytes([len(scid) if scil is None else scil]) + scid + rest)
+
+
+VERSION_CHOICES = [("v1", V1), ("v2", V2), ("zero", 0), ("unknown", 0xFACEB00C), ("grease", 0x1A2A3A4A), ("draft29", 0xFF00001D), ("ffffffff", 0xFFFFFFFF)]
+
+
+def enumerate_raw(st, rng, n, part=0, parts=1):
+    """Random bytes of every length, grammar-built headers, Version Negotiation / Retry packets,
+    coalesced mixes.  Raw descriptors carry their bytes as hex (self-contained replay)."""
+    descs = []
+    vcid = _victim_cid(st)
+    odcid = st.info.get("odcid") or b""
+    peer = st.peer
+    pend = list(st.info.get("pending") or [])
+
+    def add(kind, data, **kw):
+        descs.append(dict({"fam": "raw", "kind": kind, "hex": data.hex()}, **kw))
+
+    # (a) random bytes of all lengths 0..1500 (+ sampled up to 65535)
+    lengths = [l for l in range(0, 1501) if l % parts == part]
+    for l in lengths:
+        add("RANDOM", _rb(rng, l))
+    for _ in range(max(4, 40 // parts)):
+        add("RANDOM_BIG", _rb(rng, rng.choice([1501, 2000, 4096, 9000, 16384, 65535, rng.randrange(1501, 65536)])))
+    # (b) random bodies behind a plausible first byte / version / connection id
+    for l in lengths[:: 3]:
+        ver = rng.choice([V1, V2])
+        first = 0xC0 | rng.randrange(64)
+        dcid = rng.choice([vcid, odcid, _rb(rng, 8)])
+        add("RANDOM_AFTER_LONG_HDR", long_header(first, ver, dcid, peer.scid, _rb(rng, l)))
+        add("RANDOM_AFTER_SHORT_HDR", bytes([0x40 | rng.randrange(64)]) + rng.choice([vcid, _rb(rng, len(vcid))]) + _rb(rng, l))
+    # (c) grammar: every packet type x version x CID lengths x token/length varints
+    cidlens = [0, 1, 7, 8, 19, 20, 21, 64, 255]
+    for vname, ver in VERSION_CHOICES:
+        for tbits in range(4):
+            for fixed in (0x40, 0):
+                first = 0x80 | fixed | (tbits << 4) | rng.randrange(16)
+                for dl in cidlens:
+                    dcid = (vcid * 40)[:dl] if dl in (len(vcid),) else _rb(rng, min(dl, 300))
+                    if dl == len(vcid) and rng.random() < 0.7:
+                        dcid = vcid
+                    for length_kind in ("ok", "zero", "over", "huge8", "trunc", "none"):
+                        body = _rb(rng, 40)
+                        if length_kind == "ok":
+                            rest = ev(len(body), 2) + body
+                        elif length_kind == "zero":
+                            rest = ev(0) + body
+                        elif length_kind == "over":
+                            rest = ev(len(body) + 100, 2) + body
+                        elif length_kind == "huge8":
+                            rest = ev(VMAX, 8) + body
+                        elif length_kind == "trunc":
+                            rest = b"\x80\x00"
+                        else:
+                            rest = b""
+                        tok = b"\x00"
+                        add("HDR_%s_t%d" % (vname, tbits), long_header(first, ver, dcid, peer.scid, tok + rest))
+        # declared CID length larger than what is present (truncated CID)
+        for dl in (1, 8, 20, 21, 255):
+            add("HDR_TRUNC_CID_" + vname, bytes([0xC0]) + ver.to_bytes(4, "big") + bytes([dl]) + _rb(rng, dl // 2))
+            add("HDR_TRUNC_SCID_" + vname, bytes([0xC0]) + ver.to_bytes(4, "big") + bytes([len(vcid)]) + vcid + bytes([dl]) + _rb(rng, dl // 2))
+        for cut in range(0, 8):
+            add("HDR_TRUNC_FIXED_" + vname, (bytes([0xC0]) + ver.to_bytes(4, "big") + bytes([len(vcid)]) + vcid)[:cut])
+    # token length variants on Initial packets for supported versions
+    for ver in (V1, V2):
+        first = 0xC0 | (TYPE_CODE[ver]["initial"] << 4)
+        for tok in (ev(0), ev(5) + b"tokn!", ev(5) + b"to", ev(16383, 2), ev((1 << 30) - 1, 4), ev(VMAX, 8), b"\x40", b"\x80\x00\x00", b""):
+            for pad in (0, 1200):
+                pkt = long_header(first, ver, odcid or vcid, peer.scid, tok + ev(60, 2) + _rb(rng, 60))
+                add("HDR_INITIAL_TOKEN", pkt + bytes(max(0, pad - len(pkt))))
+    # short headers
+    for first in (0x40, 0x41, 0x43, 0x44, 0x58, 0x5F, 0x60, 0x7F, 0x00, 0x3F):
+        for cid in (vcid, _rb(rng, len(vcid)), vcid[: max(0, len(vcid) - 1)], b""):
+            for bl in (0, 1, 3, 4, 19, 20, 21, 100, 1300):
+                add("HDR_SHORT", bytes([first]) + cid + _rb(rng, bl))
+    # (d) Version Negotiation
+    for dcid in (vcid, _rb(rng, 8), b"", _rb(rng, 20)):
+        for scid in (odcid, peer.scid, b"", _rb(rng, 20), _rb(rng, 255)):
+            for label, versions in (("none", b""), ("v1", V1.to_bytes(4, "big")), ("v2", V2.to_bytes(4, "big")), ("unknown", b"\xfa\xce\xb0\x0c"),
+                                    ("v2+unknown", V2.to_bytes(4, "big") + b"\x1a\x2a\x3a\x4a"), ("many", b"\x0a\x0a\x0a\x0a" * 300 + V2.to_bytes(4, "big")),
+                                    ("odd1", V2.to_bytes(4, "big") + b"\x00"), ("odd3", b"\x00\x00\x01"), ("zero", bytes(4)), ("v1+v2", V1.to_bytes(4, "big") + V2.to_bytes(4, "big"))):
+                add("VERSION_NEGOTIATION_" + label, long_header(0x80 | rng.randrange(128), 0, dcid, scid, versions, scil=None if len(scid) < 256 else 255))
+    # (e) Retry
+    for ver in (V1, V2):
+        first = 0xC0 | (TYPE_CODE[ver]["retry"] << 4) | rng.randrange(16)
+        for dcid in (vcid, _rb(rng, 8)):
+            for new_scid in (_rb(rng, 8), b"", _rb(rng, 20)):
+                for tl in (0, 1, 16, 100, 1100, 1200, 1400, 5000):
+                    wo = long_header(first, ver, dcid, new_scid, b"K" * tl)
+                    tag = rc.retry_tag(ver, odcid, wo)
+                    add("RETRY_VALID_tok%d" % tl, wo + tag)
+                for label, tail in (("notag", b""), ("tag8", bytes(8)), ("tag15", bytes(15)), ("badtag", b"tok" + bytes(16)), ("tagonly", bytes(16))):
+                    add("RETRY_" + label, long_header(first, ver, dcid, new_scid, tail))
+    # (f) coalesced mixes of genuine and generated packets
+    junk_long = long_header(0xC0 | (TYPE_CODE[V1]["handshake"] << 4), V1, vcid, peer.scid, ev(30, 2) + _rb(rng, 30))
+    junk_short = bytes([0x40]) + vcid + _rb(rng, 30)
+    for g in pend[:3]:
+        add("COALESCE_genuine+junk_long", g + junk_long)
+        add("COALESCE_genuine+junk_short", g + junk_short)
+        add("COALESCE_genuine+random", g + _rb(rng, 50))
+        add("COALESCE_genuine+genuine", g + g)
+        add("COALESCE_junk_long+genuine", junk_long + g)
+        add("COALESCE_vn+genuine", long_header(0x80, 0, vcid, peer.scid, b"") + g)
+        add("COALESCE_genuine+zeros", g + bytes(200))
+        add("GENUINE", g)
+    descs2 = [d for i, d in enumerate(descs) if d["kind"] in ("RANDOM", "RANDOM_AFTER_LONG_HDR", "RANDOM_AFTER_SHORT_HDR", "RANDOM_BIG") or i % parts == part]
+    if n is not None and len(descs2) > n:
+        descs2 = rng.sample(descs2, n)
+    return descs2
+
+
+def mat_raw(st, d):
+    return [(bytes.fromhex(d["hex"]), None)]
+
+
+# ----------------------------------------------------------------------------- family 2: mutated genuine
+
+
+def split_coalesced(dgram):
+    """Split a datagram into its QUIC packets using only the unprotected long-header length fields."""
+    out = []
+    p = 0
+    while p < len(dgram):
+        first = dgram[p]
+        if not first & 0x80:
+            out.append(dgram[p:])
+            break
+        try:
+            r = F.Reader(dgram, p + 1)
+            ver = r.uint(4)
+            r.take(r.u8())
+            r.take(r.u8())
+            code = (first >> 4) & 3
+            tmap = {v: k for k, v in TYPE_CODE.get(ver, TYPE_CODE[V1]).items()}
+            if tmap.get(code) == "initial":
+                r.take(r.varint())
+            if tmap.get(code) == "retry" or ver == 0:
+                out.append(dgram[p:])
+                break
+            ln = r.varint()
+            end = r.p + ln
+        except F.ParseError:
+            out.append(dgram[p:])
+            break
+        if end > len(dgram) or ln == 0 and all(b == 0 for b in dgram[p:]):
+            out.append(dgram[p:])
+            break
+        out.append(dgram[p:end])
+        p = end
+    return out
+
+
+def enumerate_mut(st, rng, n, part=0, parts=1):
+    descs = []
+    sources = []
+    for i, g in enumerate(st.info.get("pending") or []):
+        sources.append(("pending%d" % i, g))
+    for i, g in enumerate((st.info.get("victim_out") or [])[:2]):
+        sources.append(("reflected%d" % i, g))
+    for i, g in enumerate((st.info.get("first") or [])[:1]):
+        sources.append(("first%d" % i, g))
+
+    def add(kind, data, **kw):
+        descs.append(dict({"fam": "mut", "kind": kind, "hex": data.hex()}, **kw))
+
+    for name, g in sources:
+        src = name.rstrip("0123456789")
+        L = len(g)
+        # byte flips: every position of the (unprotected + protected) header region, sampled elsewhere
+        positions = list(range(min(L, 72))) + sorted(rng.sample(range(min(L, 72), L), min(40, max(0, L - 72))))
+        for pos in positions:
+            for x in (0x01, 0x80, 0xFF, 0x40):
+                b = bytearray(g)
+                b[pos] ^= x
+                add("FLIP_%s_%s" % (src, "hdr" if pos < 72 else "body"), bytes(b))
+        # truncations
+        cuts = list(range(0, min(L, 90))) + sorted(rng.sample(range(min(L, 90), L), min(60, max(0, L - 90))))
+        for c in cuts:
+            add("TRUNCATE_" + src, g[:c])
+        for ext in (1, 16, 300):
+            add("EXTEND_" + src, g + _rb(rng, ext))
+            add("EXTEND_ZERO_" + src, g + bytes(ext))
+        add("PREPEND_" + src, _rb(rng, 5) + g)
+        add("DUP_" + src, g, times=3)
+        pk = split_coalesced(g)
+        if len(pk) > 1:
+            add("REORDER_PACKETS_" + src, b"".join(reversed(pk)))
+            for i, p in enumerate(pk):
+                add("SINGLE_PACKET_" + src, p)
+                add("DROP_PACKET_" + src, b"".join(q for j, q in enumerate(pk) if j != i))
+        # zero out / randomise fields in place
+        for a, bnd in ((1, 5), (5, 6), (6, 14), (0, 1)):
+            b = bytearray(g)
+            b[a:bnd] = _rb(rng, bnd - a)
+            add("FIELD_RANDOM_%s_%d" % (src, a), bytes(b))
+    # splices and re-orderings between different genuine datagrams
+    for (n1, g1) in sources:
+        for (n2, g2) in sources:
+            if n1 == n2:
+                continue
+            for _ in range(6):
+                i = rng.randrange(0, len(g1) + 1)
+                j = rng.randrange(0, len(g2) + 1)
+                add("SPLICE", g1[:i] + g2[j:])
+            add("CONCAT", g1 + g2)
+    pend = [g for nme, g in sources if nme.startswith("pending")]
+    if len(pend) > 1:
+        descs.append({"fam": "mut", "kind": "REORDER_DATAGRAMS", "seq": [g.hex() for g in reversed(pend)]})
+        descs.append({"fam": "mut", "kind": "DUPLICATE_DATAGRAMS", "seq": [g.hex() for g in pend + pend]})
+    if pend:
+        descs.append({"fam": "mut", "kind": "GENUINE_FROM_OTHER_ADDR", "seq": [g.hex() for g in pend], "addr2": 1})
+    descs = [d for i, d in enumerate(descs) if i % parts == part]
+    if n is not None and len(descs) > n:
+        descs = rng.sample(descs, n)
+    return descs
+
+
+def mat_mut(st, d):
+    addr = CLIENT_ADDR2 if d.get("addr2") else None
+    if "seq" in d:
+        return [(bytes.fromhex(h), addr) for h in d["seq"]]
+    return [(bytes.fromhex(d["hex"]), addr)] * d.get("times", 1)
+
+
+# ----------------------------------------------------------------------------- family 4: TLS messages
+
+MSG_ORDER = ["SH", "EE", "CERT", "CV", "FIN"]  # client victim: genuine server flight
+
+
+def _hs_index(st, mtype):
+    """index in the genuine server handshake flight of the message with TLS type mtype"""
+    for i, (t, _b, _r) in enumerate(st.info.get("hs_msgs") or []):
+        if t == mtype:
+            return i
+    return None
+
+
+def enumerate_tls(st, rng, n, part=0, parts=1):
+    descs = []
+    info = st.info
+
+    def add(msg, label, op, **kw):
+        kind = label.split("=")[0]
+        descs.append(dict({"fam": "tls", "kind": "%s:%s" % (msg, kind), "msg": msg, "label": label, "op": op}, **kw))
+
+    if st.role == "server":
+        if "ch" not in info:
+            # post-handshake / established server: any handshake message is hostile
+            for label, op in T.nst_catalogue():
+                add("POST", label, op)
+            for label, op in T.fin_catalogue()[:6]:
+                add("POST_FIN", label, op)
+            descs_ = descs
+        else:
+            body = T.split_tls(info["ch"])[0][1] if hasattr(T, "split_tls") else None
+            from .c05_lib import split_tls
+
+            body = split_tls(info["ch"])[0][1]
+            for label, op in T.ch_catalogue(body):
+                add("CH", label, op)
+            # splits of the genuine ClientHello across CRYPTO frames / packets
+            raw_len = len(info["ch"])
+            cuts = list(range(1, raw_len))
+            for c in cuts:
+                add("CH", "split", ["none"], split=[c], kindx="split")
+            for c in cuts[:: 7]:
+                add("CH", "split-reversed", ["none"], split=[c], reverse=1)
+                add("CH", "split-overlap", ["none"], split=[c], overlap=3)
+                add("CH", "split-same-packet", ["none"], split=[c], same_packet=1)
+            add("CH", "split-every-byte", ["none"], split=list(range(1, raw_len)), same_packet=1)
+            add("CH", "split-3", ["none"], split=[10, 100])
+            add("CH", "gap-over-max-pending", ["none"], offset=600000)
+            add("CH", "gap-at-max-pending", ["none"], offset=524288 - raw_len)
+            add("CH", "offset-near-2^62", ["none"], offset=VMAX - raw_len)
+            add("CH", "second-half-only", ["none"], only_from=raw_len // 2)
+            if st.name == "after_ch":
+                # client Finished variants (Handshake epoch) toward a server expecting Finished
+                for label, op in T.fin_catalogue():
+                    add("CFIN", label, op)
+                for label, op in T.cert_catalogue()[:8]:
+                    add("CCERT", label, op)
+    else:
+        stage_msgs = []
+        if "sh" in info:
+            from .c05_lib import split_tls
+
+            sh_body = split_tls(info["sh"])[0][1]
+            for label, op in T.sh_catalogue(sh_body):
+                add("SH", label, op)
+            i_ee = _hs_index(st, T.EE)
+            if i_ee is not None:
+                for label, op in T.ee_catalogue(info["hs_msgs"][i_ee][1]):
+                    add("EE", label, op)
+            for label, op in T.cert_catalogue():
+                add("CERT", label, op)
+            for label, op in T.cv_catalogue():
+                add("CV", label, op)
+            for label, op in T.fin_catalogue():
+                add("FIN", label, op)
+            for label, op in T.cr_catalogue():
+                add("CR", label, op)
+            for label, op in T.nst_catalogue():
+                add("NST", label, op)
+            # splits of the next genuine message at every byte
+            nxt = info.get("hs_next", 0)
+            if st.name == "first_flight":
+                raw_len = len(info["sh"])
+                for c in range(1, raw_len):
+                    add("SH", "split", ["none"], split=[c])
+                add("SH", "split-every-byte", ["none"], split=list(range(1, raw_len)), same_packet=1)
+                add("SH", "gap-over-max-pending", ["none"], offset=600000)
+            elif nxt < len(info["hs_msgs"]):
+                mname = {T.EE: "EE", T.CERT: "CERT", T.CV: "CV", T.FIN: "FIN", T.CR: "CR"}.get(info["hs_msgs"][nxt][0])
+                raw_len = len(info["hs_msgs"][nxt][2])
+                step = 1 if raw_len < 400 else 9
+                if mname:
+                    for c in range(1, raw_len, step):
+                        add(mname, "split", ["none"], split=[c])
+                    add(mname, "gap-over-max-pending", ["none"], offset=600000)
+                    add(mname, "rest-of-flight-genuine", ["none"], rest=1)
+        else:
+            for label, op in T.nst_catalogue():
+                add("NST", label, op)
+            for label, op in T.fin_catalogue()[:6]:
+                add("POST_FIN", label, op)
+            for label, op in T.cr_catalogue():
+                add("POST_CR", label, op)
+    descs = [d for i, d in enumerate(descs) if i % parts == part]
+    if n is not None and len(descs) > n:
+        descs = rng.sample(descs, n)
+    return descs
+
+
+def _chunks(raw, cuts):
+    pts = [0] + sorted(cuts) + [len(raw)]
+    return [(pts[i], raw[pts[i]: pts[i + 1]]) for i in range(len(pts) - 1)]
+
+
+def _deliver_crypto(st, ptype, raw, base_off, d):
+    """packets for CRYPTO data `raw` at stream offset base_off, honouring split/reverse/overlap."""
+    peer = st.peer
+    pad = ptype == "initial" and peer.role == "client"
+    off = base_off + d.get("offset", 0)
+    if d.get("only_from"):
+        raw, off = raw[d["only_from"]:], off + d["only_from"]
+    if "split" in d:
+        parts = _chunks(raw, d["split"])
+        if d.get("overlap"):
+            parts = [(max(0, o - d["overlap"]), raw[max(0, o - d["overlap"]): o + len(b)]) for o, b in parts]
+        if d.get("reverse"):
+            parts = list(reversed(parts))
+        if d.get("same_packet"):
+            out = []
+            payload = b""
+            for o, b in parts:
+                fr = F.f_crypto(off + o, b)
+                if len(payload) + len(fr) > 1050:
+                    out.append((peer.packet(ptype, payload, pad_to=1200 if pad else None), None))
+                    payload = b""
+                payload += fr
+            if payload:
+                out.append((peer.packet(ptype, payload, pad_to=1200 if pad else None), None))
+            return out
+        out = []
+        for o, b in parts:
+            for pkt in peer.crypto_packets(ptype, b, offset=off + o, pad_initial=pad):
+                out.append((pkt, None))
+        return out
+    return [(pkt, None) for pkt in peer.crypto_packets(ptype, raw, offset=off, pad_initial=pad)]
+
+
+def mat_tls(st, d):
+    from .c05_lib import split_tls
+
+    info = st.info
+    rng = random.Random(d.get("label", "") + "/" + str(d.get("split", "")))
+    op = tuple(d["op"])
+    m = d["msg"]
+    if st.role == "server":
+        if m == "CH":
+            body = split_tls(info["ch"])[0][1]
+            raw = T.apply_ch(body, op, rng)
+            base = info.get("ch_delivered", 0) if st.name == "partial_ch" and "split" not in d and op == ("none",) else 0
+            if st.name == "partial_ch" and op == ("none",) and "split" not in d and "offset" not in d:
+                return _deliver_crypto(st, "initial", raw[base:], base, d)
+            return _deliver_crypto(st, "initial", raw, 0, d)
+        if m in ("CFIN", "CCERT"):
+            hs = split_tls(info.get("client_hs") or b"")
+            fin = [b for t, b, _r in hs if t == T.FIN]
+            if m == "CFIN":
+                raw = T.apply_fin(fin[0] if fin else bytes(32), op, rng)
+            else:
+                raw = T.apply_cert(T.build_cert({"ctx": b"", "entries": [(T.self_signed("p256"), b"")]}), op, rng)
+            return _deliver_crypto(st, "handshake", raw, 0, d)
+        # established server
+        raw = T.apply_nst(op, rng) if m == "POST" else T.apply_fin(bytes(32), op, rng)
+        off = st.drv.conn._crypto_streams[_epoch("1rtt")].receiver.starting_offset() if "1rtt" in st.peer.keys else 0
+        return _deliver_crypto(st, "1rtt", raw, off, d)
+    # ---- client victim
+    if "sh" in info:
+        if m == "SH":
+            raw = T.apply_sh(split_tls(info["sh"])[0][1], op, rng)
+            return _deliver_crypto(st, "initial", raw, len(info["sh"]) if st.name != "first_flight" else 0, d)
+        hs_off = info.get("hs_off", 0)
+        ptype = "handshake"
+        if m == "EE":
+            raw = T.apply_ee(info["hs_msgs"][_hs_index(st, T.EE)][1], op, rng)
+        elif m == "CERT":
+            raw = T.apply_cert(info["hs_msgs"][_hs_index(st, T.CERT)][1], op, rng)
+        elif m == "CV":
+            raw = T.apply_cv(info["hs_msgs"][_hs_index(st, T.CV)][1], op, rng)
+        elif m == "FIN":
+            raw = T.apply_fin(info["hs_msgs"][_hs_index(st, T.FIN)][1], op, rng)
+        elif m == "CR":
+            raw = T.apply_cr(op, rng) if op[0] != "none" else b""
+        elif m == "NST":
+            raw = T.apply_nst(op, rng)
+            if st.name == "after_fin":
+                ptype, hs_off = "1rtt", 0
+        else:
+            raise ValueError(m)
+        if op == ("none",) and ("split" in d or "offset" in d or d.get("rest")):
+            nxt = info.get("hs_next", 0)
+            raw = b"".join(r for _t, _b, r in info["hs_msgs"][nxt:]) if d.get("rest") else info["hs_msgs"][nxt][2]
+        if st.name == "first_flight":
+            # handshake keys exist only after a ServerHello: deliver the genuine one first
+            pre = _deliver_crypto(st, "initial", info["sh"], 0, {})
+            return pre + _deliver_crypto(st, ptype, raw, hs_off, d)
+        return _deliver_crypto(st, ptype, raw, hs_off, d)
+    # established client
+    if m == "NST":
+        raw = T.apply_nst(op, rng)
+    elif m == "POST_FIN":
+        raw = T.apply_fin(bytes(32), op, rng)
+    else:
+        raw = T.apply_cr(op, rng)
+    off = st.drv.conn._crypto_streams[_epoch("1rtt")].receiver.starting_offset()
+    return _deliver_crypto(st, "1rtt", raw, off, d)
+
+
+def _epoch(name):
+    from aioquic import tls
+
+    return {"initial": tls.Epoch.INITIAL, "handshake": tls.Epoch.HANDSHAKE, "1rtt": tls.Epoch.ONE_RTT}[name]
+
+
+# ----------------------------------------------------------------------------- histories (family 3, multi-packet)
+
+
+def enumerate_hist(st, rng, n, part=0, parts=1):
+    descs = []
+
+    def add(kind, **kw):
+        descs.append(dict({"fam": "hist", "kind": kind}, **kw))
+
+    has1 = st.peer.has("1rtt") and st.name not in ("after_ch", "first_flight", "after_sh", "after_ee", "after_cert", "after_cv")
+    for pt in ptypes_for(st):
+        if pt == "1rtt" and not has1:
+            continue
+        for count in (5, 60, 200, 400, 700, 1500):
+            add("ACK_RANGE_GROWTH", pt=pt, count=count, stride=2)
+        add("ACK_RANGE_GROWTH", pt=pt, count=300, stride=70)
+    if has1:
+        # connection-id histories
+        add("NCID_F4_OUT_OF_ORDER_THEN_SWITCH")
+        for s in range(24):
+            add("NCID_RANDOM_HISTORY", seed=rng.randrange(1 << 30), steps=rng.choice([6, 12, 30]))
+        add("RETIRE_ALL_THEN_USE_RETIRED")
+        add("MANY_STREAMS", count=128)
+        add("MANY_STREAMS", count=600)
+        add("PATH_CHALLENGE_FLOOD", count=500)
+        add("MIGRATION_PINGPONG", count=20)
+        add("STREAM_REASSEMBLY_HOLES", count=400)
+        add("FLOW_CONTROL_EDGE")
+        add("KEY_UPDATE_STORM", count=12)
+        add("RESET_AFTER_DATA_ACKS")
+        add("ACK_EVERYTHING_THEN_GARBAGE_ACKS")
+    if st.role == "client" and st.name == "first_flight":
+        for tl in (0, 16, 1100, 1180, 1300, 3000):
+            add("RETRY_THEN_BAD_INITIAL", token=tl)
+            add("RETRY_THEN_GENUINE_SH", token=tl)
+        add("VN_V2_THEN_JUNK")
+        add("VN_UNKNOWN_ONLY")
+        add("RETRY_TWICE")
+    if st.role == "server" and st.name == "fresh":
+        add("GARBAGE_THEN_GENUINE")
+        add("SMALL_INITIAL_THEN_GENUINE")
+        add("UNDECRYPTABLE_INITIAL_THEN_GENUINE")
+        add("INITIAL_OTHER_VERSION_THEN_GENUINE")
+        add("INITIAL_NO_CRYPTO")
+        add("INITIAL_ACK_ONLY")
+        add("INITIAL_CLOSE_FIRST")
+    descs = [d for i, d in enumerate(descs) if i % parts == part]
+    if n is not None and len(descs) > n:
+        descs = rng.sample(descs, n)
+    return descs
+
+
+class Script:
+    """A history is materialised lazily: a list of callables(st) -> [(dgram, addr)] so that later
+    packets can depend on what the victim did (e.g. connection ids it issued)."""
+
+    def __init__(self, steps):
+        self.steps = steps
+
+
+def mat_hist(st, d):
+    peer = st.peer
+    k = d["kind"]
+    pad = lambda pt: 1200 if (pt == "initial" and peer.role == "client") else None  # noqa: E731
+    out = []
+    if k == "ACK_RANGE_GROWTH":
+        pt = d["pt"]
+        base = peer.next_pn[SPACE_OF[pt]]
+        body = b"\x01" if pt != "initial" or peer.role != "client" or st.name != "fresh" else F.f_crypto(0, (st.info.get("ch") or b"\x00"))
+        for i in range(d["count"]):
+            out.append((peer.packet(pt, body if i == 0 else b"\x01", pn=base + i * d["stride"], pn_len=4, pad_to=pad(pt)), None))
+        peer.next_pn[SPACE_OF[pt]] = base + d["count"] * d["stride"] + 1
+        return out
+    if k == "NCID_F4_OUT_OF_ORDER_THEN_SWITCH":
+        n0 = 20
+        out.append((peer.packet("1rtt", build_frame(["new_cid", n0 + 2, n0, 8, 8, 16, 0xA2])), None))
+        out.append((peer.packet("1rtt", build_frame(["new_cid", n0 + 1, n0, 8, 8, 16, 0xA1])), None))
+        out.append((peer.packet("1rtt", build_frame(["new_cid", n0 + 1, n0 + 1, 8, 8, 16, 0xA1])), None))
+        return Script([lambda s: out, _switch_cid, lambda s: [(s.peer.packet("1rtt", build_frame(["new_cid", n0 + 2, n0 + 2, 8, 8, 16, 0xA2])), None)]])
+    if k == "NCID_RANDOM_HISTORY":
+        r = random.Random(d["seed"])
+        steps = []
+        hi = 1
+        for _ in range(d["steps"]):
+            c = r.random()
+            if c < 0.55:
+                seq = r.choice([hi, hi + 1, hi + 2, r.randrange(0, hi + 3)])
+                rpt = r.choice([0, seq, max(0, seq - 1), r.randrange(0, seq + 1)])
+                hi = max(hi, seq + 1)
+                fr = ["new_cid", seq, rpt, 8, 8, 16, 0x80 + (seq & 0x3F)]
+                steps.append(lambda s, fr=fr: [(s.peer.packet("1rtt", build_frame(fr)), None)])
+            elif c < 0.75:
+                fr = ["retire_cid", r.randrange(0, 10)]
+                steps.append(lambda s, fr=fr: [(s.peer.packet("1rtt", build_frame(fr)), None)])
+            else:
+                steps.append(_switch_cid)
+        return Script(steps)
+    if k == "RETIRE_ALL_THEN_USE_RETIRED":
+        return Script([lambda s: [(s.peer.packet("1rtt", b"".join(build_frame(["retire_cid", i]) for i in range(1, 8))), None)], _switch_cid,
+                       lambda s: [(s.peer.packet("1rtt", b"\x01", dcid=bytes(8)), None)]])
+    if k == "MANY_STREAMS":
+        base = 0 if peer.role == "client" else 1
+        for i in range(d["count"]):
+            sid = base + 4 * (20 + i)
+            out.append((peer.packet("1rtt", build_frame(["stream", 2, sid, 0, 1, 1]) + build_frame(["stream", 2, sid + 2, 0, 1, 1])), None))
+        return out
+    if k == "PATH_CHALLENGE_FLOOD":
+        for i in range(d["count"]):
+            out.append((peer.packet("1rtt", build_frame(["path_challenge", i & 0xFF, 8])), CLIENT_ADDR2 if i % 3 == 0 else None))
+        return out
+    if k == "MIGRATION_PINGPONG":
+        for i in range(d["count"]):
+            out.append((peer.packet("1rtt", b"\x01"), CLIENT_ADDR2 if i % 2 else None))
+        return out
+    if k == "STREAM_REASSEMBLY_HOLES":
+        sid = 40 if peer.role == "client" else 41
+        for i in range(d["count"]):
+            out.append((peer.packet("1rtt", build_frame(["stream", 6, sid, 10 + 3 * i, 1, 1])), None))
+        out.append((peer.packet("1rtt", build_frame(["stream", 7, sid, 0, 10, 10])), None))
+        return out
+    if k == "FLOW_CONTROL_EDGE":
+        sid = 44 if peer.role == "client" else 45
+        out.append((peer.packet("1rtt", build_frame(["stream", 6, sid, 1048575, 1, 1])), None))
+        out.append((peer.packet("1rtt", build_frame(["stream", 6, sid + 4, 1048575, 1, 1])), None))
+        out.append((peer.packet("1rtt", build_frame(["reset_stream", sid + 8, 0, 1048576])), None))
+        out.append((peer.packet("1rtt", build_frame(["stream", 6, sid + 12, 1048576, 1, 1])), None))
+        return out
+    if k == "KEY_UPDATE_STORM":
+        def ku(s):
+            s.peer.key_update()
+            return [(s.peer.packet("1rtt", b"\x01"), None)]
+        return Script([ku] * d["count"])
+    if k == "RESET_AFTER_DATA_ACKS":
+        vs = 5 if peer.role == "client" else 8
+        out.append((peer.packet("1rtt", build_frame(["stop_sending", vs, 1])), None))
+        out.append((peer.packet("1rtt", build_frame(["ack", 2, 60, 0, 0, 60, [], None])), None))
+        out.append((peer.packet("1rtt", build_frame(["max_stream_data", vs, 1 << 40])), None))
+        return out
+    if k == "ACK_EVERYTHING_THEN_GARBAGE_ACKS":
+        out.append((peer.packet("1rtt", build_frame(["ack", 2, 200, 0, 0, 200, [], None])), None))
+        out.append((peer.packet("1rtt", build_frame(["ack", 2, VMAX, 0, 0, VMAX, [], None])), None))
+        out.append((peer.packet("1rtt", build_frame(["ack", 2, 0, 0, 0, 0, [], None])), None))
+        return out
+    # ---- client first flight
+    vcid = _victim_cid(st)
+    odcid = st.info.get("odcid")
+    ver = st.info.get("client_version") or peer.version
+    if k in ("RETRY_THEN_BAD_INITIAL", "RETRY_THEN_GENUINE_SH", "RETRY_TWICE"):
+        new_scid = bytes(range(0x30, 0x38))
+        first = 0xC0 | (TYPE_CODE[ver]["retry"] << 4)
+        wo = long_header(first, ver, vcid, new_scid, b"K" * d.get("token", 16))
+        retry = wo + rc.retry_tag(ver, odcid, wo)
+
+        def after_retry(s):
+            # the client now derives Initial keys from the Retry SCID
+            _c, srv = rc.initial_keys(ver, new_scid)
+            p = s.peer
+            p.keys["initial"] = srv
+            p.scid = new_scid
+            if k == "RETRY_THEN_BAD_INITIAL":
+                return [(p.packet("initial", build_frame(["type", 0x3F, 1, "00"])), None)]
+            if k == "RETRY_TWICE":
+                wo2 = long_header(first, ver, vcid, bytes(8), b"Z" * 8)
+                return [(wo2 + rc.retry_tag(ver, new_scid, wo2), None)]
+            return [(pkt, None) for pkt in p.crypto_packets("initial", s.info["sh"])]
+        return Script([lambda s: [(retry, None)], after_retry])
+    if k == "VN_V2_THEN_JUNK":
+        vn = long_header(0x80, 0, vcid, odcid, (V2 if ver == V1 else V1).to_bytes(4, "big"))
+        return Script([lambda s: [(vn, None)], lambda s: [(vn, None)], lambda s: [(bytes([0xC0]) + bytes(40), None)]])
+    if k == "VN_UNKNOWN_ONLY":
+        return [(long_header(0x80, 0, vcid, odcid, b"\xfa\xce\xb0\x0c"), None)]
+    # ---- fresh server
+    g = (st.info.get("pending") or [b""])[0]
+    if k == "GARBAGE_THEN_GENUINE":
+        return [(b"\x00" * 30, None), (g, None)]
+    if k == "SMALL_INITIAL_THEN_GENUINE":
+        return [(g[:600], None), (g, None)]
+    if k == "UNDECRYPTABLE_INITIAL_THEN_GENUINE":
+        b = bytearray(g)
+        b[-1] ^= 1
+        return [(bytes(b), None), (g, None)]
+    if k == "INITIAL_OTHER_VERSION_THEN_GENUINE":
+        other = V2 if peer.version == V1 else V1
+        c, _s = rc.initial_keys(other, odcid)
+        return [(peer.packet("initial", F.f_crypto(0, st.info["ch"][:50]), version=other, keys=c, pad_to=1200), None), (g, None)]
+    if k == "INITIAL_NO_CRYPTO":
+        return [(peer.packet("initial", b"\x01", pad_to=1200), None)]
+    if k == "INITIAL_ACK_ONLY":
+        return [(peer.packet("initial", build_frame(["ack", 2, 0, 0, 0, 0, [], None]), pad_to=1200), None)]
+    if k == "INITIAL_CLOSE_FIRST":
+        return [(peer.packet("initial", build_frame(["close", 0, 0, 0, 0, ""]), pad_to=1200), None)]
+    raise ValueError(k)
+
+
+SPACE_OF = {"initial": "I", "handshake": "H", "0rtt": "A", "1rtt": "A"}
+
+
+def _switch_cid(s):
+    """address the victim with another connection id it has issued (harness reads the ids the
+    victim currently holds; a real peer learns them from NEW_CONNECTION_ID frames)."""
+    live = [bytes(c.cid) for c in s.drv.conn._host_cids]
+    others = [c for c in live if c != s.peer.dcid]
+    if others:
+        s.peer.dcid = others[0]
+    return [(s.peer.packet("1rtt", b"\x01"), None)]
+
+
+ENUM = {"raw": enumerate_raw, "mut": enumerate_mut, "frames": enumerate_frames, "tls": enumerate_tls, "hist": enumerate_hist}
+MAT = {"raw": mat_raw, "mut": mat_mut, "frames": mat_frames, "tls": mat_tls, "hist": mat_hist}
+
+
+def enumerate_family(fam, st, rng, n, part=0, parts=1):
+    return ENUM[fam](st, rng, n, part, parts)
+
+
+def materialize(st, d):
+    """-> Script or list[(bytes, addr)]"""
+    return MAT[d["fam"]](st, d)
